@@ -11,4 +11,4 @@ Extraction "model.ml"
   run is_nonverbose sp0
   analyze_size build_expr create_lexer dfa_match dfa_match_oob expr_match
   lex_at regex_lexer parse_pattern parse_pattern_with regex_grammar_table regex_raw_grammar string_view_to_subset regex_term_f regex_rule_f
-  bucket closure_children nterm_empty nterm_first validate validate_sound no_error_symbol lexer_ok spec_longest spec_matches.
+  bucket closure_children nterm_empty nterm_first validate validate_sound no_error_symbol lexer_ok spec_longest spec_matches scan_cell scan0 is_complete.
